@@ -105,6 +105,12 @@ func (g *Gen) init() {
 			if tn, ok := types.Universe.Lookup(src).(*types.TypeName); ok {
 				ft = tn.Type()
 			}
+			if src == "ghostint" {
+				ft = ghostInt // a mathematical integer kept in the ghost heap (no program store can touch it)
+			}
+			if src == "ghostlock" {
+				ft = ghostLock
+			}
 			if _, isIface := t.Underlying().(*types.Interface); isIface && ft != nil {
 				ft = ghostInt
 			}
@@ -769,6 +775,11 @@ func (g *Gen) prepass() {
 	}
 	for _, srt := range []string{"Int", "Bool", "Ptr", "Slice", "Iface", "GInt"} {
 		g.heapFor(srt)
+	}
+	for _, gd := range g.DB.Ghosts {
+		if gd.TypeSrc == "ghostlock" {
+			g.heapFor("GLock")
+		}
 	}
 	for _, p := range g.fn.Params {
 		reg(p.Type(), 0)
